@@ -647,7 +647,7 @@ class Fxp():
 
         """
 
-        x = self.copy()
+        x = self.deepcopy()     # a copy: configuration and status are not shared with the original
         x.val = x.val.flatten(order)
         return x
 
@@ -1938,7 +1938,7 @@ class Fxp():
 
     @property
     def T(self):
-        x = self.copy()
+        x = self.deepcopy()     # as transpose(): an independent object (configuration, status and values)
         x.val = x.val.T
         return x    
     
